@@ -39,8 +39,20 @@ METRIC_VALUES = [1, -1, 0, 2]
 _spaces = {}
 
 
+_fresh = [0]
+
+
 def space_for(g):
+    """The Space for a diagonal metric.  Every third request builds a NEW Space object that is
+    dropped with the case (spaces come and go in a long-running process: anything keyed on the
+    identity of a space must not outlive it); the others share one cached Space per metric."""
     g = tuple(g)
+    _fresh[0] += 1
+    if _fresh[0] % 3 == 0 and len(g):
+        m = np.zeros((len(g), len(g)), dtype=object)
+        for i, v in enumerate(g):
+            m[i, i] = v
+        return Space(len(g), m)
     if g not in _spaces:
         m = np.zeros((len(g), len(g)), dtype=object)
         for i, v in enumerate(g):
@@ -114,6 +126,26 @@ def c_pair(ctx, case):
                 ctx.fail("C18.pair", case, f"{name}:grade-part",
                          f"metric diag{g}: {name}(e{ka}, e{kb}) = {to_ref(got)} but the grade-{t} part "
                          f"of their geometric product is {to_ref(part)}")
+    # a plain number as the LEFT operand goes through the reflected operators: s o B must be
+    # what MultiVector(s) o B is
+    for s_ in (2, F(-1, 2)):
+        S = MultiVector(s_, sp)
+        for name, op in PRODUCTS.items():
+            if name == "scalar":
+                continue
+            ctx.case(None)
+            ctx.count("scalar_left_products")
+            try:
+                got, want_mv = op(s_, B), op(S, B)
+            except Exception as ex:  # noqa: BLE001
+                ctx.fail("C18.pair", case, f"scalar-left:{name}:raised:{type(ex).__name__}",
+                         f"{s_!r} {name} e{kb} raised {type(ex).__name__}: {ex}")
+                continue
+            ref_ = cl.product(name, {(): s_}, {kb: 1}, g)
+            if not same(ref_, got) or not same(to_ref(want_mv), got):
+                ctx.fail("C18.pair", case, f"scalar-left:{name}:grade{len(kb)}",
+                         f"metric diag{g}: ({s_!r}) {name} e{kb} = {to_ref(got)}; with the scalar "
+                         f"wrapped as a multivector: {to_ref(want_mv)}; reference {ref_}")
     # vector axioms, stated directly
     if len(ka) == 1 and len(kb) == 1:
         ctx.count("vector_axioms")
